@@ -231,7 +231,9 @@ class Gen:
         r = self.r
         n = self.length()
         lon, lat = self.positions(n)
-        bbox = r.choice([[], [], [0, 0, 2, 2], [-10, -10, 10, 10], [-360, -180, 360, 180], [1, 1, 1, 1]])
+        # (the last two: upper edge below the lower one -- nothing is inside such a box)
+        bbox = r.choice([[], [], [0, 0, 2, 2], [-10, -10, 10, 10], [-360, -180, 360, 180], [1, 1, 1, 1],
+                         [340, -20, -340, 20], [-10, 10, 10, -10]])
         if r.random() < 0.04:
             bbox = r.choice([[0, 0, 2], [0, 0, 2, 2, 2], [0]])
         hp = [h for h in hops(lon, lat) if h not in (NA, 0)]
@@ -370,12 +372,16 @@ class Gen:
                     m["fspan"] = self.shrink([-5, 5])
         elif fn == "loc":
             b = p["bbox"] if len(p["bbox"]) == 4 else [-360, -180, 360, 180]
-            x1 = r.randint(b[0], b[2])
-            x2 = r.randint(x1, b[2])
-            y1 = r.randint(b[1], b[3])
-            y2 = r.randint(y1, b[3])
-            if r.random() < 0.5:
+            if b[0] > b[2] or b[1] > b[3]:
+                b = None            # nothing is inside this box already: it stays as it is
+            x1 = r.randint(b[0], b[2]) if b else 0
+            x2 = r.randint(x1, b[2]) if b else 0
+            y1 = r.randint(b[1], b[3]) if b else 0
+            y2 = r.randint(y1, b[3]) if b else 0
+            if b and r.random() < 0.5:
                 p["bbox"] = [x1, y1, x2, y2] if r.random() < 0.7 else [b[0], b[1], b[2], b[3]]
+                if r.random() < 0.2 and x1 < x2:
+                    p["bbox"] = [x2, y1, x1, y2]     # tightened past the other edge: an empty box is nested in any box
             if p["rmax"]:
                 p["rmax"] = [max(0, p["rmax"][0] - r.choice([0, 1, 100, 100000])), 1]
             elif r.random() < 0.5:
